@@ -73,7 +73,8 @@ def accepted_edits(announced):
 
 def splice(data, edits):
     out = bytearray(); at = 0
-    for s, e, t in sorted(edits):
+    # accepted edits never overlap; zero-width insertions at one offset keep the order in which they were accepted
+    for s, e, t in sorted(edits, key=lambda x: (x[0], x[1])):
         out += data[at:s]; out += t; at = e
     out += data[at:]
     return bytes(out)
